@@ -420,3 +420,111 @@ def update_conservation(chk, rule, mods, name_re, block_re, block_size=1024):
                 P, L, (I, msg) = bad
                 chk.finding(Finding(rule, src, F.name, "conservation:carried=%d,len=%d" % (P, L), "with %d byte(s) carried and len = %d: %s" % (P, L, msg), loc=I.loc() if hasattr(I, "loc") else src))
     return n, ncases
+
+
+def tail_rule(chk, rule, mods, name_re, block_re, block_size=1024, lf=8):
+    """Padding of the last block on the IR skeleton: for every residue around the boundaries the tail function
+    writes 0x80 right behind the residue, zero-fills the rest of the block before hashing it, hashes one block more
+    exactly when the length field no longer fits, zero-fills that extra block and stores the 8-byte length into the
+    last 8 bytes of the block that is hashed last."""
+    import irskel
+    from report import Finding
+    n = ncases = 0
+    BS = block_size
+    for src, M in sorted(mods.items()):
+        for F in M.defined():
+            if not re.match(name_re, F.name):
+                continue
+            pn = tn = None
+            for k, a in enumerate(F.args):
+                if a.get("name") in ("partial_buffer", "partial_block_buffer") and pn is None:
+                    pn = k
+                if a.get("name") in ("total_len", "total_length") and tn is None:
+                    tn = k
+            if pn is None or tn is None:
+                chk.broke("%s: parameters partial_buffer / total_len not found" % F.name)
+                continue
+            n += 1
+            bad = None
+            for r in (0, 1, 7, BS - lf - 2, BS - lf - 1, BS - lf, BS - lf + 1, BS - 2, BS - 1):
+                T = 7 * BS + r
+                args = [("p", "arg%d" % k, 0) if "*" in (a.get("ty") or "") else None for k, a in enumerate(F.args)]
+                args[pn] = ("p", "buf", 0)
+                args[tn] = T
+                try:
+                    rr = irskel.run(F, args, None)
+                except irskel.Unknown as e:
+                    chk.broke("%s: IR skeleton not followed for a residue of %d: %s" % (F.name, r, e))
+                    break
+                ncases += 1
+                if bad:
+                    continue
+                zero = set()          # bytes of the block known to be zero
+                mark = None
+                lenpos = None
+                nblk = 0
+                why = None
+                lastI = F.first()
+                for ev in rr.events:
+                    lastI = ev[-1]
+                    if ev[0] == "store":
+                        _, tag, o, size, v, I = ev
+                        if tag != "buf":
+                            continue
+                        if size == 1 and v == 0x80:
+                            mark = o
+                            zero.discard(o)
+                        elif size == 8:
+                            lenpos = o
+                            for b in range(o, o + 8):
+                                zero.discard(b)
+                        else:
+                            for b in range(o, o + size):
+                                zero.discard(b)
+                        continue
+                    _, cal, av, I = ev
+                    if cal.startswith(("llvm.memset", "memset", "__memset_chk")) and isinstance(av[0], tuple) and av[0][1] == "buf" and av[1] == 0 and isinstance(av[2], int):
+                        zero |= set(range(av[0][2], av[0][2] + av[2]))
+                    elif cal.startswith(("llvm.memcpy", "memcpy", "__memcpy_chk", "llvm.memmove")) and isinstance(av[0], tuple) and av[0][1] == "buf" and isinstance(av[2], int):
+                        if av[2] == 8:
+                            lenpos = av[0][2]
+                        for b in range(av[0][2], av[0][2] + av[2]):
+                            zero.discard(b)
+                    elif re.match(block_re, cal):
+                        nblk += 1
+                        first = nblk == 1
+                        if not (isinstance(av[0], tuple) and av[0][1] == "buf" and av[0][2] == 0):
+                            why = (I, "the block function is not given the padded block")
+                            break
+                        need2 = r + 1 > BS - lf
+                        if first:
+                            if mark != r:
+                                why = (I, "the padding byte 0x80 is stored at offset %s, the residue ends at %d" % (mark, r))
+                                break
+                            hi = BS if need2 else BS - lf
+                            miss = [b for b in range(r + 1, hi) if b not in zero]
+                            if miss:
+                                why = (I, "byte %d of the padded block is hashed without having been zeroed" % miss[0])
+                                break
+                        if (first and not need2) or (not first):
+                            if not first:
+                                miss = [b for b in range(0, BS - lf) if b not in zero]
+                                if miss:
+                                    why = (I, "byte %d of the second padding block is not zero" % miss[0])
+                                    break
+                            if lenpos != BS - lf:
+                                why = (I, "the last block is hashed with the length field stored at offset %s instead of %d" % (lenpos, BS - lf))
+                                break
+                        elif lenpos is not None and first and need2:
+                            pass
+                if why is None:
+                    want = 2 if r + 1 > BS - lf else 1
+                    if nblk != want:
+                        why = (lastI, "%d block(s) are hashed for the padding; a residue of %d byte(s) needs %d" % (nblk, r, want))
+                if why:
+                    bad = (r, why)
+            chk.obligation(rule, bad is None, key=(src, F.name, "tail"), sample={"unit": src, "function": F.name})
+            if bad:
+                r, (I, msg) = bad
+                chk.finding(Finding(rule, src, F.name, "padding:residue=%d" % r, "with a residue of %d byte(s): %s" % (r, msg), loc=I.loc() if hasattr(I, "loc") else src))
+    return n, ncases
